@@ -627,6 +627,21 @@ def c12_task(task):
                 dis.append(dict(stream='decompile', bytes=b.hex()[:300], impl=impl[:300], model=m[:300], origin=origin))
         else:
             stats['agree'] += 1
+        if st == 'ok' and origin not in ('compiler', 'builder') and len(b) < 4000:
+            # "the listing names, in order, exactly the instructions and operands present in the bytecode": for ANY byte string that
+            # decompiles, a listing that compiles must compile to those very bytes (a listing the compiler refuses — a DEF directly
+            # inside a DEF — is not counted here)
+            try:
+                back_ = P.compile_script('\n'.join(val))
+            except BaseException:
+                back_ = None
+            if back_ is not None:
+                stats['listing-recompiled(any origin)'] += 1
+                if back_ != b:
+                    stats['direct-fail'] += 1
+                    if len(viol) < 8:
+                        viol.append(dict(what='decompile_script returned a listing for %s bytes that names other instructions than the bytes hold: it compiles to %s' % (origin, back_.hex()[:200]),
+                                         bytes=b.hex()[:300], listing=val[:10]))
         if origin in ('compiler', 'builder') :
             if st != 'ok':
                 stats['direct-fail'] += 1
